@@ -20,7 +20,9 @@
   * `Point`, `Size`, `Rectangle` ARE the project's `EG.Pt`, `EG.Sz`, `EG.Rect`; the field names of the Rust structs
     (`x y`, `width height`, `top_left size`; checked by the translator against the `struct` declarations) are
     the accessor functions below.
-  * a `Range<i32>` is the list of values it iterates (`EG.irange`); a `RangeInclusive<i32>` is its two ends.
+  * a `Range<i32>` / `RangeInclusive<i32>` is its two ends (`range_i32_to_list` = `EG.irange` gives the values a
+    `for` loop sees); `Range::next` and `&mut self` methods in general return the updated receiver.
+  * `while` loops run on explicit fuel (`while_loop`), see the end of the file.
 
   Every definition is an `abbrev` (reducible): `simp` does not rewrite inside `Decidable` instance arguments, so the
   comparisons' instances keep mentioning `Size_width ..` etc.; they must unfold at reducible transparency for
@@ -122,9 +124,24 @@ abbrev option_is_some_and {α : Type} (o : Option α) (f : α → Bool) : Bool :
   | some v => f v
   | none => false
 
-/-- `Range<i32>`: the values `a..b` iterates, in order. -/
-abbrev RangeI32 := List Int
-abbrev range_i32_new (a b : Int) : RangeI32 := irange a b
+/-- `Range<i32>`: `a..b`, the struct with its two public fields. -/
+structure RangeI32 where
+  start : Int
+  end_ : Int
+  deriving DecidableEq, Repr
+abbrev range_i32_new (a b : Int) : RangeI32 := ⟨a, b⟩
+abbrev RangeI32_start (r : RangeI32) : Int := r.start
+abbrev RangeI32_end (r : RangeI32) : Int := r.end_
+abbrev RangeI32_set_start (r : RangeI32) (v : Int) : RangeI32 := ⟨v, r.end_⟩
+abbrev RangeI32_set_end (r : RangeI32) (v : Int) : RangeI32 := ⟨r.start, v⟩
+/-- `Range::is_empty`: `!(start < end)`. -/
+abbrev range_i32_is_empty (r : RangeI32) : Bool := !(decide (r.start < r.end_))
+/-- `Iterator::next` of `Range<i32>` (a method that mutates its receiver: value and updated receiver):
+`if start < end { let n = start; start = n + 1; Some(n) } else { None }`. -/
+abbrev range_i32_next (r : RangeI32) : Option Int × RangeI32 :=
+  if r.start < r.end_ then (some r.start, ⟨r.start + 1, r.end_⟩) else (none, r)
+/-- The values a `for` loop over the range sees (not called by generated code; used to state theorems). -/
+def range_i32_to_list (r : RangeI32) : List Int := irange r.start r.end_
 
 /-- `RangeInclusive<i32>`: `a..=b`. -/
 structure RangeInclusiveI32 where
@@ -139,5 +156,27 @@ abbrev rangeinclusive_i32_contains (r : RangeInclusiveI32) (x : Int) : Bool := d
 /-- `debug_assert!(c, "..")`: no effect in a release build (a checked build panics when `c` is false; the
 equivalence theorems state the guard under which it is true). -/
 abbrev debug_assert {α : Type} (_c : Bool) (k : α) : α := k
+
+/-! ### `while` loops
+
+A `while c { body }` whose only mutable state is `self` (the translator refuses anything else) becomes
+`while_loop fuel (fun self => c) (fun self => body') self`: `body'` ends in `LoopStep.continue_ self` where the Rust
+body reaches its end and in `LoopStep.return_ v` where it executes `return`. The loop runs on explicit fuel
+(structural recursion; no `partial`): `none` means the fuel ran out and says nothing about the Rust code; the
+theorems state how much fuel suffices. -/
+
+inductive LoopStep (σ ρ : Type) where
+  | continue_ (s : σ)
+  | return_ (r : ρ)
+
+/-- `some (continue_ s)`: the loop ended normally in state `s`; `some (return_ r)`: the body returned `r`. -/
+def while_loop {σ ρ : Type} : Nat → (σ → Bool) → (σ → LoopStep σ ρ) → σ → Option (LoopStep σ ρ)
+  | 0, _, _, _ => none
+  | fuel + 1, c, b, s =>
+    if c s then
+      match b s with
+      | .return_ r => some (.return_ r)
+      | .continue_ s' => while_loop fuel c b s'
+    else some (.continue_ s)
 
 end EG.RectSrcPrelude
